@@ -233,19 +233,20 @@ def transpile_structure(
             + indent_str("    ctx.context_values.pop()", indent)
         )
     if isinstance(struct, vyxal.structure.WhileLoop):
+        # The condition is evaluated at the top of every iteration so that
+        # `continue` (the recurse character inside a loop) re-evaluates it
         return (
-            transpile_ast(struct.condition, indent, dict_compress=dict_compress)
-            + indent_str("condition = pop(stack, 1, ctx=ctx)", indent)
-            + indent_str("while boolify(condition, ctx):", indent)
+            indent_str("while True:", indent)
+            + transpile_ast(
+                struct.condition, indent + 1, dict_compress=dict_compress
+            )
+            + indent_str("    condition = pop(stack, 1, ctx=ctx)", indent)
+            + indent_str("    if not boolify(condition, ctx): break", indent)
             + indent_str("    ctx.context_values.append(condition)", indent)
             + transpile_ast(
                 struct.body, indent + 1, dict_compress=dict_compress
             )
             + indent_str("    ctx.context_values.pop()", indent)
-            + transpile_ast(
-                struct.condition, indent + 1, dict_compress=dict_compress
-            )
-            + indent_str("    condition = pop(stack, 1, ctx=ctx)", indent)
         )
     if isinstance(struct, vyxal.structure.FunctionCall):
         var = re.sub("[^A-Za-z0-9_]", "", struct.name)
@@ -400,11 +401,14 @@ def transpile_structure(
             vyxal.structure.ForLoop,
             vyxal.structure.WhileLoop,
         ):
-            return indent_str("break", indent)
+            return indent_str("ctx.context_values.pop()", indent) + indent_str(
+                "break", indent
+            )
         elif struct.parent_structure == vyxal.structure.FunctionDef:
             return (
                 indent_str("ctx.inputs.pop()", indent)
                 + indent_str("ctx.context_values.pop()", indent)
+                + indent_str("ctx.stacks.pop()", indent)
                 + indent_str("return stack", indent)
             )
         elif struct.parent_structure == vyxal.structure.Lambda:
@@ -412,6 +416,8 @@ def transpile_structure(
                 indent_str("ret = [pop(stack, 1, ctx=ctx)]", indent)
                 + indent_str("ctx.context_values.pop()", indent)
                 + indent_str("ctx.inputs.pop()", indent)
+                + indent_str("ctx.stacks.pop()", indent)
+                + indent_str("ctx.function_stack.pop()", indent)
                 + indent_str("return ret", indent)
             )
         else:
@@ -423,11 +429,11 @@ def transpile_structure(
             vyxal.structure.ForLoop,
             vyxal.structure.WhileLoop,
         ):
-            return indent_str("continue", indent)
-        elif struct.parent_structure == vyxal.structure.FunctionDef:
-            return indent_str(
-                "stack.append(this(stack, this, ctx=ctx))", indent
+            return indent_str("ctx.context_values.pop()", indent) + indent_str(
+                "continue", indent
             )
+        elif struct.parent_structure == vyxal.structure.FunctionDef:
+            return indent_str("stack += this(stack, this, ctx=ctx)", indent)
         elif struct.parent_structure == vyxal.structure.Lambda:
             return indent_str("stack += this(stack, this, ctx=ctx)", indent)
         elif struct.parent_structure in (
